@@ -22,6 +22,8 @@ var lexFragments = []string{
 	" ", "  ", "\t", "\n", "\n\n", "\r", "\r\n", "\x00", "\x80", "\xe9", "\xff", "é", "日本", "\u2028",
 	// escapes inside backtick literals other than the backtick's own; a byte order mark
 	"`a\\${b}`", "`\\$`", "`\\\\\\``", "`\\\\${x}`", "`\\n\\\\`", "`$`", "`${a}`", "\ufeff", "\ufefflet x",
+	// a no-break space (two bytes, neither is white space for the lexer); form feed, vertical tab; words other builders register
+	"\u00a0", "a\u00a0b", "\u00a0\u00a0x\u00a0", "\x0c", "a\x0cb", "\x0b", "a = 1\x0c\x0bb", "pow", "PI", "unless", "mod",
 }
 
 func randBytes(r *rand.Rand, n int) string {
